@@ -418,38 +418,6 @@ def _judge_train_stateless(rng, tag):
     return None
 
 
-def _judge_esn_fit_from_state(rng, tag):
-    """ESN.fit(X, Y, from_state={reservoir: s}) on ONE sequence: the fit starts from exactly the given reservoir state, i.e. the readout gets the
-    parameters of the plain model reservoir >> ridge fitted with the same from_state (which equal Ridge.fit on the states of a run from s)"""
-    import reservoirpy as rpy
-    rpy.verbosity(0)
-    from reservoirpy.nodes import ESN, Reservoir, Ridge
-    rs = np.random.RandomState(rng.randrange(10 ** 6))
-    W, Win = rs.randint(-4, 5, (3, 3)) / 8.0, rs.randint(-4, 5, (3, 2)) / 4.0
-    X, Y = rs.randint(-8, 9, (8, 2)) / 4.0, rs.randint(-8, 9, (8, 1)) / 4.0
-    s0 = rs.randint(-4, 5, (1, 3)) / 4.0
-    sc = {"kind": "esn-fit-from-state", "tag": tag}
-
-    def mk(k):
-        return (Reservoir(3, W=W, Win=Win, bias=np.zeros((3, 1)), lr=0.5, name="ef%s_r%d" % (tag, k)), Ridge(ridge=0.25, name="ef%s_o%d" % (tag, k)))
-    try:
-        r1, o1 = mk(1)
-        ESN(reservoir=r1, readout=o1, name="ef%s_e" % tag).fit(X, Y, from_state={r1.name: s0})
-        r2, o2 = mk(2)
-        S = r2.run(X, from_state=s0)
-        ref = Ridge(ridge=0.25, name="ef%s_o3" % tag).fit(S, Y)
-        r4, o4 = mk(4)
-        ESN(reservoir=r4, readout=o4, name="ef%s_f" % tag).fit(X, Y)
-    except Exception as e:  # noqa: BLE001
-        return _viol("esn:fit:from_state:exception", "ESN.fit with from_state raises %r" % (e,), sc)
-    if np.allclose(ref.Wout, o4.Wout, atol=1e-9):
-        return None                       # the start state happens not to matter on this data: nothing to decide
-    if not (np.allclose(o1.Wout, ref.Wout, atol=1e-9) and np.allclose(o1.bias, ref.bias, atol=1e-9)):
-        return _viol("esn:fit:from_state-ignored", "ESN.fit(X, Y, from_state={reservoir: s}) does not fit the readout on the states of a run that starts from s "
-                     "(max |dWout| %.3g; identical to the fit without from_state: %s)" % (float(np.max(np.abs(o1.Wout - ref.Wout))), bool(np.allclose(o1.Wout, o4.Wout))),
-                     sc, np.asarray(ref.Wout).tolist(), np.asarray(o1.Wout).tolist())
-    return None
-
 
 def judge(case):
     sc = case["scenario"]
@@ -475,11 +443,6 @@ def oracle(ctx, scale=1):
     v = _judge_train_stateless(rng, "%d" % ctx.seed)
     if v:
         out.append(v)
-    for i in range(2):
-        v = _judge_esn_fit_from_state(rng, "%d_%d" % (ctx.seed, i))
-        if v:
-            out.append(v)
-            break
     return {"evaluations": n + ctx.n(3, 20) + 19, "violations": out,
             "rule": "on the real objects: stateless operations leave state() of every node unchanged (also when a node raises) and are repeatable; "
                     "reset()/reset=True equals a fresh copy; from_state equals setting the state first; Node.train / Model.train with stateful=False (call, reset, from_state in every combination) restore every state"}
@@ -489,9 +452,6 @@ def replay(payload):
     sc = payload["scenario"]
     if sc.get("kind") == "esn":
         vs = [v for v in (_judge_esn(core.random.Random(i), "rp%d" % i) for i in range(4)) if v]
-        return {"violates": bool(vs), "detail": vs[:1]}
-    if sc.get("kind") == "esn-fit-from-state":
-        vs = [v for v in (_judge_esn_fit_from_state(core.random.Random(i), "rpe%d" % i) for i in range(3)) if v]
         return {"violates": bool(vs), "detail": vs[:1]}
     if sc.get("kind") == "train-stateless":
         v = _judge_train_stateless(core.random.Random(0), "rpt")
